@@ -133,6 +133,19 @@ CLAIMED = {
              'expiry during the history. Proved for the code after fix d1270d3 (status cell covers all segments from the first put). No axioms.',
         technique='Coq proof: per-message phase invariant over dict lookups, one lemma per event kind, induction over admissible event lists; PDU-level trace correspondence',
         design='6 (C02)'),
+    'C03': dict(
+        text='Coq theorems (Props/C03.v) over an executable model of pdu()/parse_header/from_pdu for all 15 classes (Model/Pdu.v): command_length '
+             'equals the number of bytes produced for every class, field assignment and default alphabet; the header reads back exactly; and exact '
+             'round trips, for all field values in range, of the header-only classes, submit_sm_resp/deliver_sm_resp, the three binds and the three '
+             'bind responses (with and without sc_interface_version). For submit_sm/deliver_sm the body round trip is decided by the model tie plus a '
+             'direct round-trip oracle, not by a theorem yet: the model is compared with the implementation on generated messages over the whole '
+             'field space (bytes and exception classes of pdu(), fields and exception classes of from_pdu, also on truncated and corrupted PDUs).',
+        note='Trusted: Coq kernel, translator (enums, TLV tables), harness + pdugen.py. PARTIAL: the submit_sm/deliver_sm body round trip is not yet a '
+             'theorem. Domain exclusion: a GSM alphabet named explicitly under a different session default has no data_coding of its own in SMPP 3.4 '
+             '(0 = SMSC default) and is outside the field space. Proved for the code after fixes acc3db3 (explicit default alphabet normalises), '
+             '77053b5, d468104. No axioms.',
+        technique='Coq proof: positional parser lemmas (skipn cursor) composed field by field; differential correspondence on generated PDUs incl. malformed stream',
+        design='6 (C03)'),
 }
 
 PENDING_REASON = 'check not built yet in this round (planned, see DESIGN.md section 6); not claimed until its proof and correspondence run exist'
